@@ -324,4 +324,131 @@ Proof.
   unfold dm_scale, dm_nrows; cbn [dm_rows dm_cols]. unfold mmul at 1. rewrite length_mtab. reflexivity.
 Qed.
 
+(* ---------------- weightJAndY_ / weightedEstimate ---------------- *)
+(* Y_.head(n).array() *= W_.head(n).array() *)
+Lemma weight_Y_eq (Y W : list T) n : (n <= length Y)%nat ->
+  dv_set_head n Y (dv_cwise_mul N (dv_head n Y) (dv_head n W)) =
+  map (fun iy : nat * T => let (i, y) := iy in if Nat.ltb i n then nmul N y (vget N W i) else y) (combine (seq 0 (length Y)) Y).
+Proof.
+  intros Hn. unfold dv_set_head, dv_cwise_mul, dv_head.
+  assert (Hf : length (firstn n Y) = n) by (apply firstn_length_le; exact Hn). rewrite Hf.
+  apply (nth_ext _ _ (nzero N) (nzero N)).
+  - rewrite app_length, firstn_length_le by (rewrite length_tab; lia). rewrite skipn_length, map_length, combine_length, seq_length. lia.
+  - intros a Ha. rewrite app_length, firstn_length_le in Ha by (rewrite length_tab; lia). rewrite skipn_length in Ha.
+    rewrite (nth_map_indexed _ Y a (nzero N) (nzero N)) by lia.
+    destruct (Nat.ltb_spec a n) as [Hlt|Hge].
+    + rewrite app_nth1 by (rewrite firstn_length_le by (rewrite length_tab; lia); exact Hlt).
+      rewrite nth_firstn_lt by exact Hlt. rewrite nth_tab by exact Hlt. unfold vget. rewrite !nth_firstn_lt by exact Hlt. reflexivity.
+    + rewrite app_nth2 by (rewrite firstn_length_le by (rewrite length_tab; lia); exact Hge).
+      rewrite firstn_length_le by (rewrite length_tab; lia). rewrite nth_skipn_add. f_equal. lia.
+Qed.
+
+Lemma dm_set_col_shape r c M i (u : list T) : dm_shape r c M -> dm_shape r c (dm_set_col N M i u).
+Proof.
+  intros (Hc & Hr & Hf). repeat split; cbn.
+  - exact Hc.
+  - rewrite map_length, combine_length, seq_length. lia.
+  - apply Forall_forall. intros x Hx. apply in_map_iff in Hx. destruct Hx as ((a, row) & <- & Hin). cbn [fst snd].
+    rewrite length_set_nth. rewrite Forall_forall in Hf. apply Hf. apply in_combine_r in Hin. exact Hin.
+Qed.
+
+Lemma dm_get_set_col r c M i (u : list T) a b : dm_shape r c M -> (i < c)%nat -> (a < r)%nat ->
+  dm_get N (dm_set_col N M i u) a b = if Nat.eqb b i then vget N u a else dm_get N M a b.
+Proof.
+  intros (Hc & Hr & Hf) Hi Ha. unfold dm_get, dm_set_col, mget. cbn [dm_rows].
+  rewrite (nth_map_indexed _ (dm_rows M) a [] []) by lia. cbn [fst snd].
+  assert (Hl : length (nth a (dm_rows M) []) = c). { rewrite Forall_forall in Hf. apply Hf. apply nth_In. lia. }
+  destruct (Nat.eqb_spec b i) as [->|Hne].
+  - apply nth_set_nth_eq. lia.
+  - apply nth_set_nth_neq. auto.
+Qed.
+
+(* one pass of the loop: column i, rows below n, multiplied by W *)
+Lemma weight_col_get r c M (W : list T) n i a b : dm_shape r c M -> (i < c)%nat -> (a < r)%nat -> (n <= r)%nat ->
+  dm_get N (dm_set_col N M i (dv_set_head n (dm_col N M i) (dv_cwise_mul N (dv_head n (dm_col N M i)) (dv_head n W)))) a b =
+  if andb (Nat.eqb b i) (Nat.ltb a n) then nmul N (dm_get N M a i) (vget N W a) else dm_get N M a b.
+Proof.
+  intros HM Hi Ha Hn. rewrite (dm_get_set_col r c) by assumption.
+  destruct (Nat.eqb_spec b i) as [->|Hne]; cbn [andb]; [|reflexivity].
+  destruct HM as (Hc & Hr & Hf).
+  assert (Hlen : length (dm_col N M i) = r) by (unfold dm_col; rewrite map_length; exact Hr).
+  rewrite (weight_Y_eq (dm_col N M i) W n) by lia. unfold vget at 1.
+  rewrite (nth_map_indexed _ (dm_col N M i) a (nzero N) (nzero N)) by lia.
+  assert (Hg : nth a (dm_col N M i) (nzero N) = dm_get N M a i).
+  { unfold dm_col, dm_get, mget. rewrite <- (map_nth (fun row => nth i row (nzero N)) (dm_rows M) [] a).
+    replace (nth i [] (nzero N)) with (nzero N) by (destruct i; reflexivity). reflexivity. }
+  rewrite Hg. reflexivity.
+Qed.
+
+Lemma weight_J_fold r c M0 (W : list T) n : dm_shape r c M0 -> (n <= r)%nat ->
+  fold_left (fun M i => dm_set_col N M i (dv_set_head n (dm_col N M i) (dv_cwise_mul N (dv_head n (dm_col N M i)) (dv_head n W))))
+            (seq 0 c) M0
+  = mkdm c (mtab r c (fun a b => if Nat.ltb a n then nmul N (dm_get N M0 a b) (vget N W a) else dm_get N M0 a b)).
+Proof.
+  intros H0 Hn.
+  pose (P := fun (i : nat) (M : dmat (T:=T)) => dm_shape r c M /\
+               forall a b, (a < r)%nat -> (b < c)%nat ->
+                 dm_get N M a b = if andb (Nat.ltb b i) (Nat.ltb a n) then nmul N (dm_get N M0 a b) (vget N W a) else dm_get N M0 a b).
+  assert (HP : P (0 + c)%nat (fold_left (fun M i => dm_set_col N M i (dv_set_head n (dm_col N M i)
+                  (dv_cwise_mul N (dv_head n (dm_col N M i)) (dv_head n W)))) (seq 0 c) M0)).
+  { apply (fold_seq_inv _ P).
+    - split; [exact H0|]. intros a b _ _. reflexivity.
+    - intros i M Hi (Hs & Hg). split; [apply dm_set_col_shape; exact Hs|]. intros a b Ha Hb.
+      rewrite (weight_col_get r c) by (try assumption; lia). rewrite !Hg by lia.
+      destruct (Nat.eqb_spec b i), (Nat.ltb_spec a n), (Nat.ltb_spec b i), (Nat.ltb_spec b (S i)), (Nat.ltb_spec i i);
+        cbn [andb]; subst; try reflexivity; try lia. }
+  destruct HP as (Hs & Hg). apply (dm_shape_ext N r c); [exact Hs|]. intros a b Ha Hb. rewrite Hg by assumption.
+  destruct (Nat.ltb_spec b (0 + c)); [|lia]. reflexivity.
+Qed.
+
+Lemma tie_weight s : ls_wf (abs s) -> ls_est_ok (abs s) = true -> abs (src_weightJAndY_ N s) = ls_weight N (abs s).
+Proof.
+  intros (HJ & HW & Hn & Hf) Hok. unfold ls_est_ok in Hok. apply andb_true_iff in Hok. destruct Hok as (Hk & _).
+  apply Nat.eqb_eq in Hk. cbn [abs ls_J ls_Y ls_W ls_n ls_jcols ls_k] in *.
+  unfold src_weightJAndY_, ls_weight, abs. cbv zeta. cbn [dataSize_ estimateSize_ Ac_ Bc_ J_ Y_ W_ JtJ_ inverseJtJ_ JtY_ ls_n ls_k ls_A ls_b ls_jcols ls_J ls_Y ls_W ls_inv].
+  rewrite <- Hk.
+  rewrite (weight_J_fold (length (dm_rows (J_ s))) (dm_cols (J_ s)) (J_ s) (W_ s) (dataSize_ s)); [|repeat split; assumption|lia].
+  rewrite (weight_Y_eq (Y_ s) (W_ s) (dataSize_ s) Hn). cbn [dm_cols dm_rows].
+  f_equal.
+  (* the model scales whole rows, the code column after column: same table *)
+  set (r := length (dm_rows (J_ s))). set (c := dm_cols (J_ s)) in *.
+  assert (Hs2 : dm_shape r c (mkdm c (map (fun ir : nat * list T => let (i, r0) := ir in
+                   if Nat.ltb i (dataSize_ s) then map (fun x => nmul N x (vget N (W_ s) i)) r0 else r0)
+                   (combine (seq 0 r) (dm_rows (J_ s)))))).
+  { repeat split; cbn [dm_cols dm_rows].
+    - rewrite map_length, combine_length, seq_length. unfold r. lia.
+    - apply Forall_forall. intros x Hx. apply in_map_iff in Hx. destruct Hx as ((a, row) & <- & Hin).
+      apply in_combine_r in Hin. rewrite Forall_forall in Hf. specialize (Hf row Hin).
+      destruct (Nat.ltb a (dataSize_ s)); [rewrite map_length|]; exact Hf. }
+  pose proof (dm_shape_ext N r c _ (fun a b => if Nat.ltb a (dataSize_ s) then nmul N (dm_get N (J_ s) a b) (vget N (W_ s) a) else dm_get N (J_ s) a b) Hs2) as E.
+  cbn [dm_rows] in E. symmetry. apply (f_equal dm_rows) in E; [exact E|].
+  intros a b Ha Hb. unfold dm_get, mget. cbn [dm_rows]. unfold r in Ha.
+  rewrite (nth_map_indexed _ (dm_rows (J_ s)) a [] []) by exact Ha.
+  destruct (Nat.ltb a (dataSize_ s)); [|reflexivity].
+  assert (Hl : length (nth a (dm_rows (J_ s)) []) = c). { rewrite Forall_forall in Hf. apply Hf. apply nth_In. exact Ha. }
+  rewrite (nth_indep _ (nzero N) (nmul N (nzero N) (vget N (W_ s) a))) by (rewrite map_length; lia).
+  rewrite (map_nth (fun x => nmul N x (vget N (W_ s) a))). reflexivity.
+Qed.
+
+Lemma dims_weight s : src_dims s -> src_dims (src_weightJAndY_ N s).
+Proof. exact (fun H => H). Qed.
+
+Lemma tie_weighted (D : LsDictOK N) s : ldlt_dims -> src_dims s -> ls_wf (abs s) -> ls_est_ok (abs s) = true ->
+  Some (abs (fst (src_weightedEstimate N ldlt_solve s)), snd (src_weightedEstimate N ldlt_solve s))
+  = ls_weighted_estimate N inverse_of_src (abs s).
+Proof.
+  intros Hl Hd Hwf Hok. unfold ls_weighted_estimate. rewrite Hok. rewrite <- (tie_weight s Hwf Hok).
+  unfold src_weightedEstimate. cbv zeta. cbn [fst snd].
+  apply (tie_chol D (src_weightJAndY_ N s) Hl (dims_weight s Hd)).
+  - rewrite (tie_weight s Hwf Hok). apply wf_weight. exact Hwf.
+  - rewrite (tie_weight s Hwf Hok). rewrite est_ok_weight by exact Hwf. exact Hok.
+Qed.
+
+Lemma dims_weighted (D : LsDictOK N) s : ldlt_dims -> src_dims s -> ls_wf (abs s) -> ls_est_ok (abs s) = true ->
+  src_dims (fst (src_weightedEstimate N ldlt_solve s)).
+Proof.
+  intros Hl Hd Hwf Hok. unfold src_weightedEstimate. cbv zeta. cbn [fst].
+  apply (dims_chol D _ Hl (dims_weight s Hd)). rewrite (tie_weight s Hwf Hok). apply wf_weight. exact Hwf.
+Qed.
+
 End Tie.
